@@ -28,6 +28,18 @@ ASSUMPTIONS = ["input ahead of the report contains no complete look-alike report
                "nested get_cursor_vertical_diff calls arrive while the position query is in progress (the re-entrancy "
                "guard's window); handlers interrupting between two bytecodes of the bookkeeping are not modelled"]
 
+LEVEL_NOTE = ("PROVED in Lean for all inputs of the model: C18_parse (report parsed exactly, preceding input handed to the callback "
+              "/ ValueError, nothing after the report consumed, any number of failing reads), C18_conserve / C18_once_exact, "
+              "C18_nested, C18_error_recovers / C18_error_then_ok (failure path), C18_decimal. Stated hypotheses: the input ahead "
+              "of the report contains no complete look-alike report (`hpre`; C18_lookalike_witness shows the code cannot tell one "
+              "from the real answer); the digit-value function gives no value to ESC, 0x9b, ';', 'R' (checked against the live "
+              "re/int each run). NOT a theorem: that the character-at-a-time scanner model is what the incremental re.search "
+              "does - it rests on the prose argument in Model/Window.lean and on the bounded exhaustive tie (every preceding "
+              "input up to length 4/5 over the alphabet partitioning the regex's classes). Outside model, tie and coverage: the "
+              "production path `self.t.get_location()` taken when the streams are the real stdout/stdin (`_use_blessed`). "
+              "trusted: Lean kernel + propext/Classical.choice/Quot.sound, the hand-written model (tied per run), the terminal "
+              "spec for the histories shared with C07")
+
 ESC, CSI8 = "\x1b", "\x9b"
 ALPHA = [ESC, "[", CSI8, "1", "7", ";", "R", "a", "\n"]
 ARABIC3 = "٣"      # a decimal digit that is not ASCII: `\d` and int() accept it
